@@ -153,8 +153,9 @@ impl Gen {
 
     /// strictly increasing keys below `max`
     fn inc_keys(&mut self, max: u64, n: usize) -> Vec<u64> {
-        let mut ks: Vec<u64> = (0..n).map(|_| match self.rng.below(4) {
-            0 => self.rng.below(8),
+        let mut ks: Vec<u64> = (0..n).map(|_| match self.rng.below(5) {
+            // the low keys are the assigned ones (SVCB: mandatory, alpn, ...; NSEC: window 0), where code is apt to look inside the value
+            0 | 1 => self.rng.below(8),
             1 => max - 1 - self.rng.below(3),
             _ => self.rng.below(max),
         }).collect();
